@@ -177,6 +177,10 @@ pub fn emit(pp: &PublicParameters, seed: u64, budget: usize, lines: &[String]) -
             for j in 0..n {
                 if j != i && compiled[j].2 != *vb {
                     out.push(vline(3, &x, &compiled[j].2, pis, pb, "expect-reject:other-verifier"));
+                    if compiled[j].3 != *pis {
+                        // ... and with that verifier's own public-input vector (e.g. one more, zero-valued, public input)
+                        out.push(vline(3, &x, &compiled[j].2, &compiled[j].3, pb, "expect-reject:other-verifier-own-pis"));
+                    }
                 }
             }
         }
